@@ -6,6 +6,10 @@ d = f"/verif/seeded/{sid}"
 assert subprocess.run(["git", "-C", "/repo", "status", "--porcelain", "--untracked-files=no"], capture_output=True, text=True).stdout.strip() == "", "/repo not clean"
 subprocess.run(["git", "-C", "/repo", "apply", f"{d}/patch.diff"], check=True)
 res = {}
+import shutil, tempfile
+evbak = tempfile.mkdtemp(prefix="evbak_")
+for f in os.listdir("/verif/evidence"):
+    shutil.copy2(os.path.join("/verif/evidence", f), evbak)
 try:
     for p in props_:
         r = subprocess.run(["./check", p, "--tier", "quick"], cwd="/verif", capture_output=True, text=True)
@@ -19,6 +23,10 @@ try:
         print(p, r.returncode, v[:1], flush=True)
 finally:
     subprocess.run(["git", "-C", "/repo", "checkout", "--", "."], check=True)
+    # evidence files must describe runs on the unchanged tree: put them back
+    for f in os.listdir(evbak):
+        shutil.copy2(os.path.join(evbak, f), "/verif/evidence")
+    shutil.rmtree(evbak)
 mp = f"{d}/meta.json"
 meta = json.load(open(mp)) if os.path.exists(mp) else {}
 meta.setdefault("checks_run", {}).update(res)
